@@ -64,6 +64,7 @@ type Exec struct {
 	onRead        func(st *State, l Loc)
 	nq            int
 	wroteAll      string
+	nown          int
 	mapsHavocked  bool
 	nmepoch       int
 	epochAlloc    map[int]T
